@@ -84,6 +84,26 @@ macro_rules! hset_api {
                     "rhas" => HashSet::<$V>::from_bytes(bytes).contains(&v(0)).to_string(),
                     "rsize" => HashSet::<$V>::from_bytes(bytes).size().to_string(),
                     "dlen" => HashSetMut::<$V>::data_len(op.args[0] as usize).to_string(),
+                    "bulk" => {
+                        let mut s = HashSetMut::<$V>::from_bytes_mut(bytes);
+                        let mut n = 0usize;
+                        for j in 0..op.args[1] {
+                            if s.insert(<$V as Num>::from_i(op.args[0] + j)) {
+                                n += 1;
+                            }
+                        }
+                        n.to_string()
+                    }
+                    "bulkrem" => {
+                        let mut s = HashSetMut::<$V>::from_bytes_mut(bytes);
+                        let mut n = 0usize;
+                        for j in 0..op.args[1] {
+                            if s.remove(&<$V as Num>::from_i(op.args[0] + j)) {
+                                n += 1;
+                            }
+                        }
+                        n.to_string()
+                    }
                     "rcap" => HashSet::<$V>::from_bytes(bytes).capacity().to_string(),
                     "rfull" => HashSet::<$V>::from_bytes(bytes).is_full().to_string(),
                     "rempty" => HashSet::<$V>::from_bytes(bytes).is_empty().to_string(),
@@ -229,7 +249,7 @@ impl<A: HApi> HSut<A> {
     pub fn parse(&self, l: &str) -> Option<Op> {
         let mut it = l.split_whitespace();
         let name = it.next()?;
-        const NAMES: &[&str] = &["init", "open", "ins", "rem", "has", "size", "cap", "full", "empty", "rhas", "rsize", "rcap", "rfull", "rempty", "iter", "fill", "dlen"];
+        const NAMES: &[&str] = &["init", "open", "ins", "rem", "has", "size", "cap", "full", "empty", "rhas", "rsize", "rcap", "rfull", "rempty", "iter", "fill", "dlen", "bulk", "bulkrem"];
         let n = NAMES.iter().find(|n| **n == name)?;
         Some(Op { name: n, args: it.filter_map(|a| a.parse().ok()).collect(), blob: None })
     }
@@ -310,7 +330,7 @@ impl<A: HApi> Sut for HSut<A> {
     }
     fn kind(&self, op: &Op) -> Kind {
         match op.name {
-            "init" | "ins" | "rem" => Kind::Mutating,
+            "init" | "ins" | "rem" | "bulk" | "bulkrem" => Kind::Mutating,
             _ => Kind::Query,
         }
     }
@@ -337,7 +357,7 @@ impl<A: HApi> Sut for HSut<A> {
         f
     }
     fn sessionable(&self, op: &Op) -> bool {
-        !matches!(op.name, "open" | "fill" | "iter" | "dlen")
+        !matches!(op.name, "open" | "fill" | "iter" | "dlen" | "bulk" | "bulkrem")
     }
     fn session(&self, buf: &mut ABuf, ops: &[Op]) -> Option<Vec<String>> {
         guarded(|| A::session(buf.bytes_mut(), ops)).ok()
@@ -445,6 +465,19 @@ impl<A: HApi> Sut for HSut<A> {
                 exp.clear();
                 None
             }
+            "bulk" => {
+                let n = (op.args[1] as usize).min(mcap.saturating_sub(msize));
+                for v in self.vals.iter().filter(|v| **v >= op.args[0] && **v < op.args[0] + n as i128) {
+                    exp.insert(*v);
+                }
+                Some(n.to_string())
+            }
+            "bulkrem" => {
+                for v in self.vals.iter().filter(|v| **v >= op.args[0] && **v < op.args[0] + op.args[1]) {
+                    exp.remove(v);
+                }
+                None
+            }
             _ => None,
         };
         if let Some(e) = expected {
@@ -455,15 +488,33 @@ impl<A: HApi> Sut for HSut<A> {
         if op.name != "init" && q != exp {
             f.push(Finding { property: "C02", what: format!("after `{}` contains() reports the members {:?}, the reference set has {:?}", op.text(), q, exp) });
         }
-        if op.name != "init" && qsize != exp.len() {
-            f.push(Finding { property: "C02", what: format!("after `{}` size() is {} but the reference set has {} members", op.text(), qsize, exp.len()) });
+        // values outside the universe may be members (bulk operations): sizes are counted relative to the size before
+        let delta: usize = if op.name == "bulk" || op.name == "bulkrem" { out.result.parse().unwrap_or(0) } else { 0 };
+        let want_size = match op.name {
+            "init" => 0,
+            "bulk" => msize + delta,
+            "bulkrem" => msize.saturating_sub(delta),
+            _ => (msize + exp.len()).saturating_sub(m.len()),
+        };
+        if qsize != want_size {
+            f.push(Finding { property: "C02", what: format!("after `{}` size() is {} but the reference set has {} members", op.text(), qsize, want_size) });
         }
         // iteration yields every member exactly once and nothing else
-        let mut sorted = items.clone();
-        sorted.sort();
-        let want: Vec<i128> = q.iter().copied().collect();
-        if op.name != "init" && sorted != want {
-            f.push(Finding { property: "C02", what: format!("after `{}` iteration yields {:?} but the members are {:?}", op.text(), items, want) });
+        if op.name != "init" {
+            let mut d = items.clone();
+            d.sort();
+            let n0 = d.len();
+            d.dedup();
+            if d.len() != n0 {
+                f.push(Finding { property: "C02", what: format!("after `{}` iteration yields a value twice: {:?}", op.text(), &items[..items.len().min(40)]) });
+            }
+            if items.len() != qsize {
+                f.push(Finding { property: "C02", what: format!("after `{}` iteration yields {} values but size() is {}", op.text(), items.len(), qsize) });
+            }
+            let iu: BTreeSet<i128> = d.iter().copied().filter(|v| self.vals.contains(v)).collect();
+            if iu != q {
+                f.push(Finding { property: "C02", what: format!("after `{}` iteration yields the universe values {:?} but the members are {:?}", op.text(), iu, q) });
+            }
         }
         f
     }
